@@ -84,6 +84,13 @@ class FsTr:
             return e.id
         if isinstance(e, ast.UnaryOp) and isinstance(e.op, ast.Not):
             return '(negb %s)' % self.bexpr(e.operand, s)
+        if isinstance(e, ast.BoolOp) and isinstance(e.op, (ast.And, ast.Or)) and len(e.values) >= 2:
+            # Python's short-circuit and/or over side-effect-free boolean operands
+            op = 'andb' if isinstance(e.op, ast.And) else 'orb'
+            out = self.bexpr(e.values[-1], s)
+            for v in reversed(e.values[:-1]):
+                out = '(%s %s %s)' % (op, self.bexpr(v, s), out)
+            return out
         if (isinstance(e, ast.Call) and isinstance(e.func, ast.Attribute) and e.func.attr == 'exists'
                 and _is_name(e.func.value, self.path) and not e.args and not e.keywords):
             return '(fs_exists %s %s)' % (s, self.path)
